@@ -55,6 +55,7 @@ Flush ==
     /\ PrintT(<<"BEHAVIOUR", ToJson([def |-> def, sched |-> sched, res |-> res, disk |-> disk, sigs |-> [r \in Reqs |-> sigs[r]]])>>)
     /\ def' = [r \in Reqs |-> Unchosen]
     /\ disk' = [k \in Keys |-> NoRec]
+    /\ cache' = [k \in Keys |-> NoCache]
     /\ mapLock' = None
     /\ holder' = [k \in Keys |-> None]
     /\ pc' = [r \in Reqs |-> "idle"]
